@@ -161,7 +161,7 @@ def evaluate(ctx, exes, oracle, cases, combos_of=None, count=True):
     res, fails = vf.par_lines(oracle, ol, chunk=1, timeout=1500)
     if fails:
         raise vf.Infra('openclip oracle failed: %s' % str(fails[0][2] or fails[0][3])[:600])
-    stats = dict(gp_rejected=0, inconsistent=0, nontrivial=set(), accepted=[], self_touch=0)
+    stats = dict(gp_rejected=0, inconsistent=0, nontrivial=set(), accepted=[], self_touch=0, skipped_after_crashes=0)
     recheck = []     # (failure dict) geometric failures on coordinates beyond 2^53, to be classified with relaxed tolerances
     for ci, (c, line) in enumerate(zip(cases, res)):
         if line.startswith('ERR'):
@@ -188,6 +188,12 @@ def evaluate(ctx, exes, oracle, cases, combos_of=None, count=True):
             found = []
             if any(r[k] is None for k in ('A', 'B', 'T', 'TB')):
                 bad = [(k, x) for k, x in zip(('A', 'B', 'T', 'TB'), r['raw']) if r[k] is None]
+                if all(x == 'SKIP' for k, x in bad):
+                    stats['skipped_after_crashes'] += 1
+                    if r['A'] is not None:
+                        next(reports)
+                    continue
+                bad = [(k, x) for k, x in bad if x != 'SKIP']
                 found.append(('crash.open-boolop', '%s: boolean operation crashed, hung or threw (%s run: paths/tree, with/without open subjects): %s'
                               % (tag, bad[0][0], bad[0][1][:200]), dict(run=bad[0][0])))
                 if r['A'] is not None:
@@ -266,14 +272,17 @@ def evaluate(ctx, exes, oracle, cases, combos_of=None, count=True):
     return fails_out, stats
 
 
-def run_harness(exe, lines, shard=256):
+def run_harness(exe, lines, shard=256, max_bad=24):
     """line-in/line-out over all cores; a shard in which the harness crashed or hung is re-run line by line so that
-    only the crashing lines are lost (their output is 'CRASH rc=...')"""
-    import concurrent.futures as cf
+    only the crashing lines are lost (their output is 'CRASH rc=...').  After max_bad crashing lines the remaining
+    lines of failing shards are not evaluated at all ('SKIP'): enough replays exist by then."""
+    import concurrent.futures as cf, threading
     shards = [lines[i:i + shard] for i in range(0, len(lines), shard)]
+    bad = [0]
+    lock = threading.Lock()
 
     def work(sh):
-        p = vf.run_lines(exe, sh, timeout=300)
+        p = vf.run_lines(exe, sh, timeout=120)
         o = p.stdout.split('\n')
         if o and o[-1] == '':
             o.pop()
@@ -281,9 +290,17 @@ def run_harness(exe, lines, shard=256):
             return o
         res = []
         for l in sh:
-            q = vf.run_lines(exe, [l], timeout=20)
+            if bad[0] >= max_bad:
+                res.append('SKIP')
+                continue
+            q = vf.run_lines(exe, [l], timeout=10)
             t = q.stdout.strip()
-            res.append(t if q.returncode == 0 and t else 'CRASH rc=%s %s' % (q.returncode, q.stderr.strip()[-160:].replace('\n', ' ')))
+            if q.returncode == 0 and t:
+                res.append(t)
+            else:
+                with lock:
+                    bad[0] += 1
+                res.append('CRASH rc=%s %s' % (q.returncode, q.stderr.strip()[-160:].replace('\n', ' ')))
         return res
     with cf.ThreadPoolExecutor(max_workers=vf.NPROC) as ex:
         return [l for o in ex.map(work, shards) for l in o]
@@ -320,13 +337,17 @@ def primary(fails):
     return list(best.values())
 
 
-def shrink(ctx, exes, oracle, f, budget=40):
+def shrink(ctx, exes, oracle, f, budget=40, seconds=45):
     """greedy delta debugging: drop paths / vertices while the same key is still reported for the same rules"""
+    import time
+    t0 = time.time()
     r = f['replay']
     cur = dict(S=tup(r['S']), C=tup(r['C']), O=tup(r['O']))
     fixed = dict(pc=r['pc'], rs=r['rs'], build=r['build'], regime=r.get('regime', '?'))
     best = f
     for _ in range(budget):
+        if time.time() - t0 > seconds:
+            break
         cands = [dict(c, **fixed) for c in openpaths.shrink_candidates(cur['S'], cur['C'], cur['O'])]
         if not cands:
             break
@@ -384,6 +405,7 @@ def run(ctx):
     ctx.cov['genpos_rejected_by_coq_predicate'] = stats.get('gp_rejected', 0)
     ctx.cov['cases_with_nonconstant_piece_rejected'] = stats.get('inconsistent', 0)
     ctx.cov['cases_accepted'] = len(stats.get('accepted', []))
+    ctx.cov['rule_runs_skipped_after_crashes'] = stats.get('skipped_after_crashes', 0)
     ctx.cov['cases_with_self_touching_open_paths'] = stats.get('self_touch', 0)
     ctx.cov['distinct_nontrivial'] = len(stats.get('nontrivial', ()))
     for ci in stats.get('accepted', []):
@@ -404,9 +426,11 @@ def run(ctx):
     seen = {}
     for f in primary(fails):
         seen.setdefault(f['key'], []).append(f)
+    import time
+    t_shrink = time.time()
     for key, fs in seen.items():
         f = fs[0]
-        if f.get('ci') is not None and not any(k['key'] == key for k in ctx.known):
+        if f.get('ci') is not None and not any(k['key'] == key for k in ctx.known) and time.time() - t_shrink < (150 if ctx.quick else 900):
             try:
                 f = shrink(ctx, exes, oracle, f)
             except vf.Infra:
